@@ -1,2 +1,124 @@
--- stub: driver for C07 not written yet
-def main : IO Unit := pure ()
+import CMacVerif.Model.HydroGraph
+import CMacVerif.Util.Bits
+open CMacVerif CMacVerif.Util CMacVerif.Worker CMacVerif.HydroGraph
+
+def slotOfNat : Nat → Option Slot
+  | 0 => some .gradInt | 1 => some (.gradUp .x) | 2 => some (.gradDown .x)
+  | 3 => some (.gradUp .y) | 4 => some (.gradDown .y) | 5 => some (.gradUp .z) | 6 => some (.gradDown .z)
+  | 7 => some .limiter | 8 => some .predict | 9 => some .fluxInt
+  | 10 => some (.fluxUp .x) | 11 => some (.fluxDown .x) | 12 => some (.fluxUp .y) | 13 => some (.fluxDown .y)
+  | 14 => some (.fluxUp .z) | 15 => some (.fluxDown .z) | 16 => some .updCons | 17 => some .updPrim
+  | _ => none
+
+def natOfSlot : Slot → Nat
+  | .gradInt => 0 | .gradUp .x => 1 | .gradDown .x => 2 | .gradUp .y => 3 | .gradDown .y => 4
+  | .gradUp .z => 5 | .gradDown .z => 6 | .limiter => 7 | .predict => 8 | .fluxInt => 9
+  | .fluxUp .x => 10 | .fluxDown .x => 11 | .fluxUp .y => 12 | .fluxDown .y => 13
+  | .fluxUp .z => 14 | .fluxDown .z => 15 | .updCons => 16 | .updPrim => 17
+
+def kindName (L : Layout) (t : Task) : String :=
+  match t.slot with
+  | .gradInt => "GRADIENTSWEEP_INTERNAL"
+  | .gradUp ax => if (ngbUp L ax t.g).isSome then "GRADIENTSWEEP_EXTERNAL_NEIGHBOUR" else "GRADIENTSWEEP_EXTERNAL_BOUNDARY"
+  | .gradDown _ => "GRADIENTSWEEP_EXTERNAL_BOUNDARY"
+  | .limiter => "SLOPE_LIMITER" | .predict => "PREDICT_PRIMITIVES" | .fluxInt => "FLUXSWEEP_INTERNAL"
+  | .fluxUp ax => if (ngbUp L ax t.g).isSome then "FLUXSWEEP_EXTERNAL_NEIGHBOUR" else "FLUXSWEEP_EXTERNAL_BOUNDARY"
+  | .fluxDown _ => "FLUXSWEEP_EXTERNAL_BOUNDARY"
+  | .updCons => "UPDATE_CONSERVED" | .updPrim => "UPDATE_PRIMITIVES"
+
+def subOfIdx (L : Layout) (i : Nat) : Sub := (i / (L.ny * L.nz), (i / L.nz) % L.ny, i % L.nz)
+def idxOfSub (L : Layout) (g : Sub) : Nat := g.1 * L.ny * L.nz + g.2.1 * L.nz + g.2.2
+def code (L : Layout) (t : Task) : Nat := idxOfSub L t.g * 18 + natOfSlot t.slot
+def showTask (L : Layout) (t : Task) : String := s!"{idxOfSub L t.g}:{natOfSlot t.slot}"
+def sortNat (l : List Nat) : List Nat := (l.toArray.qsort (· < ·)).toList
+def showCodes (l : List Nat) : String := " ".intercalate (l.map fun c => s!"{c / 18}:{c % 18}")
+def showOpt (L : Layout) (o : Option Sub) : String := match o with | some g => toString (idxOfSub L g) | none => "-1"
+
+structure St where
+  L : Layout := ⟨1, 1, 1, false, false, false⟩
+  /-- child order of the implementation (a permutation of the model's child lists, checked by `perm`) -/
+  order : List (Nat × List Task) := []
+  ws : WState Task := init (graph ⟨1, 1, 1, false, false, false⟩)
+
+def chOf (s : St) (t : Task) : List Task :=
+  match s.order.find? (fun p => p.1 == code s.L t) with
+  | some p => p.2
+  | none => children s.L t
+
+def G (s : St) : Graph Task Sub := { graph s.L with children := chOf s }
+
+def parseTask (L : Layout) (g sl : String) : Option Task :=
+  (slotOfNat (nat! sl)).map fun s => ⟨subOfIdx L (nat! g), s⟩
+
+def parseTasks (L : Layout) : List String → List Task
+  | g :: sl :: rest => (match parseTask L g sl with | some t => [t] | none => []) ++ parseTasks L rest
+  | _ => []
+
+def statusName : Status Task → String
+  | .notReady => "notReady" | .queued => "queued" | .running => "running"
+  | .releasing _ => "releasing" | .done => "done"
+
+def step (s : St) : List String → St × String
+  | ["layout", nx, ny, nz, px, py, pz] =>
+    let L : Layout := ⟨nat! nx, nat! ny, nat! nz, px == "1", py == "1", pz == "1"⟩
+    ({ L := L, order := [], ws := init (graph L) }, s!"layout {(allTasks L).length}")
+  | ["sub", g] =>
+    let gg := subOfIdx s.L (nat! g)
+    (s, s!"sub {g} {showOpt s.L (ngbUp s.L .x gg)} {showOpt s.L (ngbDown s.L .x gg)} {showOpt s.L (ngbUp s.L .y gg)} {showOpt s.L (ngbDown s.L .y gg)} {showOpt s.L (ngbUp s.L .z gg)} {showOpt s.L (ngbDown s.L .z gg)}")
+  | ["task", g, sl] =>
+    match parseTask s.L g sl with
+    | none => (s, "bad-op")
+    | some t =>
+      if exists_ s.L t then
+        let locks := sortNat ((lockset s.L t).map (idxOfSub s.L))
+        let ch := sortNat ((children s.L t).map (code s.L))
+        (s, s!"task {g} {sl} {kindName s.L t} locks=[{" ".intercalate (locks.map toString)}] children=[{showCodes ch}] reset={resetCount s.L t} parents={(parents s.L t).length}")
+      else (s, s!"task {g} {sl} none")
+  | "order" :: g :: sl :: rest =>
+    -- the implementation's child order of one task: accepted iff a permutation of the model's list
+    match parseTask s.L g sl with
+    | none => (s, "bad-op")
+    | some t =>
+      let impl := parseTasks s.L rest
+      if sortNat (impl.map (code s.L)) == sortNat ((children s.L t).map (code s.L)) then
+        ({ s with order := (code s.L t, impl) :: s.order }, "order perm")
+      else (s, "order NOT-A-PERMUTATION")
+  | ["start"] =>
+    let ws := init (G s)
+    ({ s with ws := ws }, s!"start {ws.num}")
+  | ["A", g, sl] =>
+    match parseTask s.L g sl with
+    | none => (s, "bad-op")
+    | some t => match Worker.step (G s) s.ws (.acquire t) with
+      | some ws' => ({ s with ws := ws' }, "A ok #acquire")
+      | none => (s, s!"A DISABLED status={statusName (s.ws.st t)}")
+  | ["F", g, sl] =>
+    match parseTask s.L g sl with
+    | none => (s, "bad-op")
+    | some t => match Worker.step (G s) s.ws (.finishExec t) with
+      | some ws' => ({ s with ws := ws' }, "F ok #finish")
+      | none => (s, s!"F DISABLED status={statusName (s.ws.st t)}")
+  | ["R", g, sl, cg, csl] =>
+    match parseTask s.L g sl, parseTask s.L cg csl with
+    | some t, some c =>
+      (match s.ws.st t with
+       | .releasing (c' :: _) =>
+         if c' = c then
+           match Worker.step (G s) s.ws (.releaseChild t) with
+           | some ws' => ({ s with ws := ws' }, s!"R ok {ws'.cnt c} #{if ws'.st c == .queued && s.ws.st c == .notReady then "release-enqueue" else "release"}")
+           | none => (s, "R DISABLED")
+         else (s, s!"R WRONG-CHILD expected {showTask s.L c'}")
+       | _ => (s, s!"R DISABLED status={statusName (s.ws.st t)}"))
+    | _, _ => (s, "bad-op")
+  | ["E", g, sl] =>
+    match parseTask s.L g sl with
+    | none => (s, "bad-op")
+    | some t => match Worker.step (G s) s.ws (.retire t) with
+      | some ws' => ({ s with ws := ws' }, s!"E ok {ws'.num} #retire")
+      | none => (s, s!"E DISABLED status={statusName (s.ws.st t)}")
+  | ["end"] =>
+    let alldone := (allTasks s.L).all fun t => s.ws.st t == .done && s.ws.execd t == 1
+    (s, s!"end {s.ws.num} {if alldone then "all-done-once" else "NOT-ALL-DONE"}")
+  | _ => (s, "bad-op")
+
+def main : IO Unit := runDriver step ({} : St)
